@@ -87,7 +87,27 @@ func (r recProc) Send(pid *actor.PID, msg any, sender *actor.PID) {
 	*r.log = append(*r.log, delivery{to: r.pid.ID, pid: pid, msg: msg, sender: sender})
 }
 
-const nTargets = 5
+const (
+	nTargets = 5  // t/0..t/4
+	nWide    = 40 // w/0..w/39: batches that name many distinct targets / senders
+)
+
+func targetID(t int) string {
+	if t < nTargets {
+		return fmt.Sprintf("t/%d", t)
+	}
+	return fmt.Sprintf("w/%d", t-nTargets)
+}
+
+func senderOf(i int) *actor.PID {
+	switch {
+	case i <= 0:
+		return nil
+	case i < len(senderPool):
+		return &actor.PID{Address: senderPool[i][0], ID: senderPool[i][1]}
+	}
+	return &actor.PID{Address: "z:9", ID: fmt.Sprintf("s/%d", i)}
+}
 
 var (
 	engine *actor.Engine
@@ -100,8 +120,8 @@ func node() *actor.Engine {
 		if err != nil {
 			panic("harness: " + err.Error())
 		}
-		for i := 0; i < nTargets; i++ {
-			e.SpawnProc(recProc{pid: actor.NewPID(e.Address(), fmt.Sprintf("t/%d", i)), log: &dlog})
+		for i := 0; i < nTargets+nWide; i++ {
+			e.SpawnProc(recProc{pid: actor.NewPID(e.Address(), targetID(i)), log: &dlog})
 		}
 		engine = e
 	}
@@ -189,15 +209,12 @@ func runWire(c WCase) (labels []string, nt bool, err error) {
 		envs := make([]actor.Envelope, 0, len(batch))
 		ts, ss, ks := map[int]bool{}, map[string]bool{}, map[string]bool{}
 		for mi, m := range batch {
-			if m.T < 0 || m.T >= nTargets || m.S < 0 || m.S >= len(senderPool) {
+			if m.T < 0 || m.T >= nTargets+nWide || m.S < 0 || m.S >= len(senderPool)+nWide {
 				return nil, false, nil
 			}
 			msg, ok := m.build()
-			var sender *actor.PID
-			if m.S > 0 {
-				sender = &actor.PID{Address: senderPool[m.S][0], ID: senderPool[m.S][1]}
-			}
-			target := actor.NewPID(e.Address(), fmt.Sprintf("t/%d", m.T))
+			sender := senderOf(m.S)
+			target := actor.NewPID(e.Address(), targetID(m.T))
 			envs = append(envs, actor.Envelope{Msg: remote.VerifDeliver(target, sender, msg)})
 			if ok {
 				wants = append(wants, want{target.ID, msg.(proto.Message), sender, [2]int{bi, mi}})
@@ -260,6 +277,12 @@ func runWire(c WCase) (labels []string, nt bool, err error) {
 	if hasNil && maxS >= 2 {
 		labels = append(labels, "nil-and-non-nil-sender-in-one-batch")
 	}
+	if maxT >= 9 {
+		labels = append(labels, fmt.Sprintf("distinct-targets-in-one-batch>=%d", min(maxT/9*9, 36)))
+	}
+	if maxS >= 9 {
+		labels = append(labels, fmt.Sprintf("distinct-senders-in-one-batch>=%d", min(maxS/9*9, 36)))
+	}
 	nt = maxT >= 2 && maxS >= 2 && hasNil && maxK >= 2
 	if nt {
 		labels = append(labels, "nontrivial")
@@ -280,11 +303,18 @@ func genWire(t *rapid.T) WCase {
 	c := WCase{}
 	for b := 0; b < nb; b++ {
 		n := rapid.IntRange(1, 24).Draw(t, "n")
+		maxT, maxS := nTargets-1, len(senderPool)-1
+		// one batch in four talks to / for many distinct PIDs (the lookup tables of an envelope grow
+		// with the batch; nothing in the writer bounds them)
+		if rapid.IntRange(0, 3).Draw(t, "wide") == 0 {
+			n = rapid.IntRange(8, 96).Draw(t, "wide-n")
+			maxT, maxS = nTargets+nWide-1, len(senderPool)+nWide-1
+		}
 		batch := make([]WMsg, n)
 		for i := range batch {
 			batch[i] = WMsg{
-				T: rapid.IntRange(0, nTargets-1).Draw(t, "t"),
-				S: rapid.IntRange(0, len(senderPool)-1).Draw(t, "s"),
+				T: rapid.IntRange(0, maxT).Draw(t, "t"),
+				S: rapid.IntRange(0, maxS).Draw(t, "s"),
 				K: rapid.SampledFrom(kinds).Draw(t, "k"),
 				D: rapid.StringMatching(`[a-c]{0,3}`).Draw(t, "d"),
 			}
